@@ -23,6 +23,13 @@ CLAIMED = {
  "C14": ("exploration", "seeded simulation of insert/delete histories with injected eviction outcomes (tape of extreme RNG words, salts) against a class multiset model, delete-counting on clones",
          "Refinement of CuckooFilter against a multiset of fingerprint classes under simulator-owned eviction randomness; len, query over the universe, delete results and remaining multiplicities checked.",
          "Classes derived per run black-box; tiny tables dominate (2-8 buckets) with 10% realistic sizes."),
+
+ "C05": ("exploration", "batches of sampler runs over SimRng seeds per (k, n) cell; inclusion counts of every stream position and of regions tested against k/n at z = 6 with the documented-approximation allowance beyond n = 4k+1",
+         "The probability in the statement is over the injected RNG, which the simulator owns: per (k, n) cell 2*10^5 (k<=16) or 2*10^4 (k=64) sampler runs with distinct RNG streams; exact test while n <= 4k+1, calibrated allowance (1+ln(n/4k))/k beyond (a textbook implementation uses about half of it).",
+         "Statistical acceptance; binomial standard error is conservative because inclusions within a run are negatively correlated; SimRng's SplitMix stream is assumed to be a good uniform source."),
+ "C18": ("exploration", "seeded simulation with a tape of extreme RNG words (0, u64::MAX, 1<<63, ...) at a random 0-30% of draw positions; structural invariants after every add",
+         "Arbitrary RNG output is the fault: the invariants (len = min(n,k), items are distinct stream positions, prefix order until k, i(), is_empty, no panic) are checked after every add across and on the phase boundaries, with clear() restarts.",
+         "k <= 64 mostly, occasionally 1000 and 10^5; n <= 6*10^4."),
 }
 
 PENDING = {}
